@@ -8,11 +8,12 @@ CONFIGS["C42"] = dict(
     level_text="seeded search over (request batch x schedule): the real router, authentication, services.ServiceHandler "
                "(in-process), service cache, compiler and VM serve batches of 2-5 requests with pairwise distinct URL parts, "
                "parameters, bodies, headers and users to generated stateless services and two shipped ones; each batch is "
-               "served one at a time (reference) and then, after flushing the service cache, concurrently under the seeded "
+               "served request by request on a server that has seen no other request (absolute reference), one at a time on one "
+               "server (must equal the absolute reference: no request sees an earlier one's data) and then, after flushing the service cache, concurrently under the seeded "
                "scheduler at bytecode-instruction and lock granularity; every concurrent response (status, content type, "
                "echo header, body) must equal the reference. Race-detector batch included. Also checks that nothing the "
                "requests started is alive ten simulated minutes later.",
-    technique="deterministic simulation: seeded scheduling of concurrent requests through the real server stack, differential oracle against sequential service",
+    technique="deterministic simulation: seeded scheduling of concurrent requests through the real server stack, differential oracle against isolated and sequential service",
     rewrite=dict(dirs=ALL_INTERNAL, step=True, chan=["internal/language/data/channel.go"]),
     extra_files=[CACHES_EXPORT, ROUTER_EXPORT],
     env={"EGO_PATH": "/repo"},  # read-only: lib/packages/*.ego extensions used by shipped services
